@@ -26,11 +26,28 @@ func VerifC20Client() {
 		c.ActivateNativeInterpreter()
 	}
 	verdict := nd.Bool("verdict")
-	matcherRan, updaterRan := 0, 0
-	regLate := nd.Choice("register-after-create", 2) == 1
-	_ = regLate // registrations always happen after NewClient; the table copies the registry by reference
+	matcherRan, updaterRan, staleRan, keyRan, filterRan := 0, 0, 0, 0, 0
+	// a registry replaced through SetInterpreter (before or after the table exists) is the one in force:
+	// what was registered with the replaced registry never fires again
+	if nd.Choice("set-interpreter", 2) == 1 {
+		c.GetNativeInterpreter().AddMatcher(vTbl, interpreter.ExpressionTypeConditional, "v = :x", func(item, attrs map[string]*mtypes.Item) bool {
+			staleRan++
+			return !verdict
+		})
+		c.GetNativeInterpreter().AddUpdater(vTbl, "SET u = :n", func(item, attrs map[string]*mtypes.Item) { staleRan++ })
+		c.SetInterpreter(interpreter.NewNativeInterpreter())
+	}
+	keyVerdict := nd.Bool("key-verdict")
 	c.GetNativeInterpreter().AddMatcher(vTbl, interpreter.ExpressionTypeConditional, "v = :x", func(item, attrs map[string]*mtypes.Item) bool {
 		matcherRan++
+		return verdict
+	})
+	c.GetNativeInterpreter().AddMatcher(vTbl, interpreter.ExpressionTypeKey, "p = :p", func(item, attrs map[string]*mtypes.Item) bool {
+		keyRan++
+		return keyVerdict
+	})
+	c.GetNativeInterpreter().AddMatcher(vTbl, interpreter.ExpressionTypeFilter, "v = :x", func(item, attrs map[string]*mtypes.Item) bool {
+		filterRan++
 		return verdict
 	})
 	c.GetNativeInterpreter().AddUpdater(vTbl, "SET u = :n", func(item, attrs map[string]*mtypes.Item) {
@@ -41,7 +58,7 @@ func VerifC20Client() {
 	v, x := nd.StringN("v", 1), nd.StringN("x", 1)
 	nd.Assert(vPut(c, vItem{"p": vS("k"), "v": vS(v)}) == nil, "setup-put")
 
-	switch nd.Choice("op", 4) {
+	switch nd.Choice("op", 7) {
 	case 0: // registered condition text (with extra blanks)
 		_, err := c.PutItem(vCtx, &dynamodb.PutItemInput{TableName: aws.String(vTbl), Item: vItem{"p": vS("k"), "v": vS("new")},
 			ConditionExpression: aws.String("  v =  :x "), ExpressionAttributeValues: vItem{":x": vS(x)}})
@@ -84,6 +101,43 @@ func VerifC20Client() {
 			nd.Assert(updaterRan == 0, "C20-client-native-off-updater-never-dispatches")
 			nd.Assert(vSameItem(got, vItem{"p": vS("k"), "v": vS(v), "u": vS("z")}), "C20-client-native-off-builtin-update")
 		}
+	case 4: // Query: key matcher and filter matcher, each under its own kind
+		out, err := c.Query(vCtx, &dynamodb.QueryInput{TableName: aws.String(vTbl), KeyConditionExpression: aws.String("p = :p"), FilterExpression: aws.String("v = :x"),
+			ExpressionAttributeValues: vItem{":p": vS("k"), ":x": vS(x)}})
+		nd.Assert(err == nil, "C20-client-query-noerr")
+		if err == nil {
+			if native {
+				nd.Reach("native-query")
+				nd.Assert(keyRan == 1, "C20-client-key-matcher-ran-once-per-item")
+				nd.Assert(filterRan == map[bool]int{true: 1, false: 0}[keyVerdict], "C20-client-filter-matcher-ran-for-key-matches")
+				nd.Assert(matcherRan == 0, "C20-client-conditional-matcher-not-used-for-reads")
+				nd.Assert((len(out.Items) == 1) == (keyVerdict && verdict), "C20-client-query-result-is-the-matchers-verdict")
+			} else {
+				nd.Assert(keyRan == 0 && filterRan == 0, "C20-client-native-off-query-never-dispatches")
+				nd.Assert((len(out.Items) == 1) == (v == x), "C20-client-native-off-query-builtin-decides")
+			}
+		}
+	case 5: // Scan with the registered filter text
+		out, err := c.Scan(vCtx, &dynamodb.ScanInput{TableName: aws.String(vTbl), FilterExpression: aws.String("v  = :x"), ExpressionAttributeValues: vItem{":x": vS(x)}})
+		nd.Assert(err == nil, "C20-client-scan-noerr")
+		if err == nil {
+			if native {
+				nd.Reach("native-scan")
+				nd.Assert(filterRan == 1 && keyRan == 0 && matcherRan == 0, "C20-client-scan-filter-matcher-ran")
+				nd.Assert((len(out.Items) == 1) == verdict, "C20-client-scan-result-is-the-matchers-verdict")
+			} else {
+				nd.Assert(filterRan == 0, "C20-client-native-off-scan-never-dispatches")
+				nd.Assert((len(out.Items) == 1) == (v == x), "C20-client-native-off-scan-builtin-decides")
+			}
+		}
+	case 6: // Scan with a filter text registered only as a key condition: falls back to the built-in
+		out, err := c.Scan(vCtx, &dynamodb.ScanInput{TableName: aws.String(vTbl), FilterExpression: aws.String("p = :p"), ExpressionAttributeValues: vItem{":p": vS(x)}})
+		nd.Assert(err == nil, "C20-client-scan2-noerr")
+		if err == nil {
+			nd.Assert(keyRan == 0 && filterRan == 0, "C20-client-key-registration-never-fires-for-a-filter")
+			nd.Assert((len(out.Items) == 1) == (x == "k"), "C20-client-unregistered-filter-falls-back")
+		}
 	}
+	nd.Assert(staleRan == 0, "C20-client-replaced-registry-never-fires")
 	nd.Reach("end")
 }
